@@ -11,6 +11,19 @@ R4 = 37          # first rank-4 pattern
 O0 = "asanO0-cc"  # template-heavy units are built at -O0 (same sanitizers; 3x faster to compile); an -O1 slice runs in thorough
 
 
+# compile-cost knobs (vf_c19.hpp): pattern->pattern conversion targets per source pattern, static_vector-backed mdarray
+RICH = []                                                                              # defaults: all / 4 / 3 / on
+LEAN = ["-DVF_CONV_EXT=6", "-DVF_CONV_MAP=2", "-DVF_CONV_MD=1", "-DVF_SVEC=0"]
+
+
+def knobs(name, slice_unit):
+    if name == "int32":
+        return RICH
+    if name == "uint64":
+        return ["-DVF_CONV_EXT=6", "-DVF_CONV_MAP=2", "-DVF_CONV_MD=1"] if slice_unit else RICH
+    return LEAN if slice_unit else ["-DVF_CONV_MAP=2", "-DVF_CONV_MD=1", "-DVF_SVEC=0"]
+
+
 def defs(name, ctype, lo, hi, step=1, extra=()):
     return [f"-DVF_IDX={ctype}", f'-DVF_IDX_NAME="{name}"', f"-DVF_PLO={lo}", f"-DVF_PHI={hi}", f"-DVF_PSTEP={step}"] + list(extra)
 
@@ -18,7 +31,7 @@ def defs(name, ctype, lo, hi, step=1, extra=()):
 def slices(kind):
     """full pattern list split for parallel compilation"""
     if kind == "md":
-        return [(0, R4), (R4, 53), (53, 68), (68, NG)]
+        return [(0, 26), (26, R4), (R4, 53), (53, 68), (68, NG)]
     return [(0, R4), (R4, NG)]
 
 
@@ -31,13 +44,13 @@ for kind in ("ext", "map", "md"):
         # int32 and uint64, every 2nd pattern for the other six index types)
         full = primary or name == "uint64" or kind != "md"
         for n, (lo, hi) in enumerate(slices(kind) if full else [(0, 53), (53, NG)]):
-            units.append(Unit(f"C19_{kind}_{name}_p{n}", src, defs=defs(name, ctype, lo, hi, 1 if full else 2),
+            units.append(Unit(f"C19_{kind}_{name}_p{n}", src, defs=defs(name, ctype, lo, hi, 1 if full else 2, knobs(name, False)),
                               flavours={"quick": [O0] if primary else [], "thorough": [O0]},
                               shards={"quick": 2, "thorough": 2}))
         if not primary:
             # quick: a slice of the pattern list (every 2nd pattern for uint64, every 6th/8th for the others)
             step = (2 if kind != "md" else 3) if name == "uint64" else (6 if kind != "md" else 8)
-            units.append(Unit(f"C19_{kind}_{name}_s", src, defs=defs(name, ctype, 0, NG, step),
+            units.append(Unit(f"C19_{kind}_{name}_s", src, defs=defs(name, ctype, 0, NG, step, knobs(name, True)),
                               flavours={"quick": [O0], "thorough": []}, shards={"quick": 1, "thorough": 1}))
     # thorough extras on a slice (every 4th pattern, int32): optimised build, contract checks off, no sanitizer (canary bands)
     units.append(Unit(f"C19_{kind}_int32_x", src, defs=defs("int32", "int", 0, NG, 4),
